@@ -7,9 +7,11 @@
   curses keys ⊆ curtsies keys, multi-byte entries ASCII, ...), which `genTables_wf` re-proves over the
   regenerated tables on every build.
 
-  Domain of C20_config (the property's "every key a configuration file can name"): C-<letter a..z>,
-  M-<graphic ASCII character 0x21..0x7e>, F1..F12, the documented SPECIALS, and the empty (unbound) name.
-  The property is silent on other names; `keymapGet` models them (KeyError etc.) and the harness ties them.
+  Domain of C20_config (the property's "every key a configuration file can name"): C-<lower-case letter a..z>,
+  M-<printable ASCII character 0x20..0x7e, the space included>, F1..F12, the documented SPECIALS, and the empty
+  (unbound) name. OUTSIDE the judged domain (reading, stated in the check's ASSUMPTIONS): upper-case C-<LETTER>
+  (`C-A` maps to `<Ctrl-A>`, which no table entry is called) and M-<non-ASCII character>. The property is
+  silent on those and on malformed names; `keymapGet` models them (KeyError etc.) and the harness ties them.
 -/
 import Curtsies.Properties.C03
 namespace Curtsies
@@ -53,7 +55,7 @@ theorem C20_same_cuts (T : KeyTables) (hT : T.WF) (seq : List Nat) (enc : Enc) (
     cutOf (getKey T seq enc m₁ full) = cutOf (getKey T seq enc m₂ full) := by
   rw [getKey_cut hT, getKey_cut hT]
 
-/-- ... hence `find_key` consumes the same bytes in every mode (same cut positions over a whole stream). -/
+/-- ... hence `find_key` consumes the same bytes in every mode (one call; whole runs: `C20_same_cuts_segment`). -/
 theorem C20_same_cuts_findKey (T : KeyTables) (hT : T.WF) (enc : Enc) (m₁ m₂ : KeyMode) (buf : List Nat) :
     (findKey T enc m₁ buf).map (Option.map (·.2)) = (findKey T enc m₂ buf).map (Option.map (·.2)) := by
   suffices ∀ un cur, (findKeyLoop T enc m₁ cur un).map (Option.map (·.2)) =
@@ -78,6 +80,45 @@ theorem C20_same_cuts_findKey (T : KeyTables) (hT : T.WF) (enc : Enc) (m₁ m₂
         cases o1 <;> cases o2 <;> simp [cutOf] at hc
         · exact ih _
         · simp [Except.map]
+
+/-- ... and over a whole run: `segment` cuts the stream into the same pieces in every mode (same consumed byte
+    strings in the same order, or the same exception). -/
+theorem C20_same_cuts_segment (T : KeyTables) (hT : T.WF) (enc : Enc) (m₁ m₂ : KeyMode) (n : Nat) (buf : List Nat) :
+    (segment T enc m₁ n buf).map (List.map (·.2)) = (segment T enc m₂ n buf).map (List.map (·.2)) := by
+  induction n generalizing buf with
+  | zero => cases buf <;> simp [segment, Except.map]
+  | succ n ih =>
+    cases buf with
+    | nil => simp [segment, Except.map]
+    | cons b bs =>
+      have h := C20_same_cuts_findKey T hT enc m₁ m₂ (b :: bs)
+      simp only [segment]
+      cases h1 : findKey T enc m₁ (b :: bs) with
+      | error e1 =>
+        cases h2 : findKey T enc m₂ (b :: bs) with
+        | error e2 => rw [h1, h2] at h; simp [Except.map] at h; simp [h, Except.map]
+        | ok o2 => rw [h1, h2] at h; simp [Except.map] at h
+      | ok o1 =>
+        cases h2 : findKey T enc m₂ (b :: bs) with
+        | error e2 => rw [h1, h2] at h; simp [Except.map] at h
+        | ok o2 =>
+          rw [h1, h2] at h
+          simp [Except.map] at h
+          cases o1 with
+          | none => cases o2 with
+            | none => rfl
+            | some _ => simp at h
+          | some p1 => cases o2 with
+            | none => simp at h
+            | some p2 =>
+              obtain ⟨k1, c1, r1⟩ := p1
+              obtain ⟨k2, c2, r2⟩ := p2
+              simp at h
+              obtain ⟨rfl, rfl⟩ := h
+              have := ih r1
+              simp only []
+              cases s1 : segment T enc m₁ n r1 <;> cases s2 : segment T enc m₂ n r1 <;>
+                rw [s1, s2] at this <;> simp [Except.map] at this ⊢ <;> simp [this]
 
 /-- 'bytes' naming returns exactly the bytes of the keypress. -/
 theorem C20_bytes (T : KeyTables) (s : List Nat) (e : Enc) (full : Bool) (k : KeyVal)
@@ -116,11 +157,13 @@ theorem C20_no_unnameable (T : KeyTables) (hT : T.WF) (seq : List Nat) (enc : En
 
 /-! ### configuration names -/
 
-/-- `n` is a name the model decoder returns for some table entry fed whole (buffer exhausted), curtsies naming -/
+/-- `n` is a name the decoder can actually produce: for some table sequence `u`, some encoding and some
+    continuation `rest`, `find_key` on `u ++ rest` returns `n` as one keypress consuming exactly `u` (curtsies
+    naming) -/
 def producible (T : KeyTables) (n : List Nat) : Prop :=
-  ∃ u enc, T.isKey u = true ∧ getKey T u enc .curtsies true = .ok (some (.text n))
+  ∃ u enc rest, T.isKey u = true ∧ findKey T enc .curtsies (u ++ rest) = .ok (some (.text n, u, rest))
 
-/-- every curtsies table name is producible: its sequence fed whole is reported under that name -/
+/-- every curtsies table name is produced by `get_key` on its sequence when the buffer is exhausted ... -/
 theorem C20_table_names_producible (T : KeyTables) (hT : T.WF) (u : List Nat) (name : List Nat)
     (h : T.curtsies.lookup u = some name) (enc : Enc) :
     getKey T u enc .curtsies true = .ok (some (.text name)) := by
@@ -129,10 +172,20 @@ theorem C20_table_names_producible (T : KeyTables) (hT : T.WF) (u : List Nat) (n
   rw [getKey_known hl enc .curtsies true (keyKnown_of_isKey hu enc) (Or.inl rfl)]
   simp [keyName, h, Except.map]
 
-/-- the configuration names the property quantifies over: SPECIALS, C-a..C-z, M-<0x21..0x7e>, F1..F12 -/
+/-- ... and by `find_key` on a buffer holding exactly that sequence, under every encoding. -/
+theorem C20_table_names_producible_findKey (T : KeyTables) (hT : T.WF) (u : List Nat) (name : List Nat)
+    (h : T.curtsies.lookup u = some name) (enc : Enc) :
+    findKey T enc .curtsies (u ++ []) = .ok (some (.text name, u, [])) := by
+  have hu : T.isKey u = true := by simp [KeyTables.isKey, h]
+  obtain ⟨k, hk, n, hn, rfl⟩ := (C03_table T hT u hu enc .curtsies [] (by rintro ⟨_, h, _⟩; exact h rfl)).2.1
+    (Or.inl rfl)
+  rw [h] at hn; cases hn
+  exact hk
+
+/-- the configuration names the property quantifies over: SPECIALS, C-a..C-z, M-<0x20..0x7e>, F1..F12 -/
 def validConfigNames (specials : List (List Nat × List Nat)) : List (List Nat) :=
   specials.map (fun p => p.1) ++ (List.range 26).map (fun i => [67, 45, 97 + i]) ++
-  (List.range 94).map (fun i => [77, 45, 33 + i]) ++ (List.range 12).map (fun i => 70 :: natCps (i + 1))
+  (List.range 95).map (fun i => [77, 45, 32 + i]) ++ (List.range 12).map (fun i => 70 :: natCps (i + 1))
 
 /-- `keymap[k]` succeeds with at least one name, each of which is a name in the curtsies table -/
 def configOk (T : KeyTables) (specials : List (List Nat × List Nat)) (k : List Nat) : Bool :=
@@ -160,15 +213,17 @@ theorem C20_config : ∀ k ∈ validConfigNames Generated.configSpecialsCps,
     intro n hn'
     obtain ⟨e, he, h1⟩ := h.2 n hn'
     have h2 : genTables.curtsies.lookup e.1 = some e.2 := genTables_wf.curtsies_lookup e he
-    refine ⟨e.1, .utf8, by simp [KeyTables.isKey, h2], ?_⟩
-    rw [C20_table_names_producible genTables genTables_wf e.1 e.2 h2 .utf8, h1]
+    refine ⟨e.1, .utf8, [], by simp [KeyTables.isKey, h2], ?_⟩
+    rw [C20_table_names_producible_findKey genTables genTables_wf e.1 e.2 h2 .utf8, h1]
   · cases h
 
 /-- An unbound key (the empty name) maps to nothing - for any SPECIALS table. -/
 theorem C20_config_unbound (specials : List (List Nat × List Nat)) : keymapGet specials [] = .ok [] := rfl
 
-/-- Non-vacuity: `C-a`, `M-x`, `F12`, `C-i` (SPECIALS) are among the valid names and map as expected. -/
+/-- Non-vacuity: `C-a`, `M-x`, `M- `, `F12`, `C-i` (SPECIALS) are among the valid names and map as expected. -/
 example : [67, 45, 97] ∈ validConfigNames Generated.configSpecialsCps ∧
+    [77, 45, 32] ∈ validConfigNames Generated.configSpecialsCps ∧
+    keymapGet Generated.configSpecialsCps [77, 45, 32] = .ok [cpsOf "<Esc+SPACE>", cpsOf "<Meta- >"] ∧
     keymapGet Generated.configSpecialsCps [67, 45, 97] = .ok [cpsOf "<Ctrl-a>"] ∧
     keymapGet Generated.configSpecialsCps [77, 45, 120] = .ok [cpsOf "<Esc+x>", cpsOf "<Meta-x>"] ∧
     keymapGet Generated.configSpecialsCps (cpsOf "F12") = .ok [cpsOf "<F12>"] ∧
